@@ -39,6 +39,7 @@ from pybtex.utils import (
     OrderedCaseInsensitiveDict, CaseInsensitiveDefaultDict, CaseInsensitiveSet
 )
 from pybtex.richtext import Text
+from pybtex.bibtex.exceptions import BibTeXError
 from pybtex.bibtex.utils import split_tex_string, scan_bibtex_string
 from pybtex.errors import report_error
 from pybtex.plugin import find_plugin
@@ -750,7 +751,13 @@ class Person(object):
             if string[0].islower():
                 return True
             else:
-                for char, brace_level in scan_bibtex_string(string):
+                try:
+                    tokens = scan_bibtex_string(string)
+                except BibTeXError:
+                    # braces nested deeper than the scanner follows them:
+                    # the token has no case (a name is never rejected)
+                    return False
+                for char, brace_level in tokens:
                     if brace_level == 0 and char.isalpha():
                         return char.islower()
                     elif brace_level == 1 and char.startswith('\\'):
